@@ -181,6 +181,9 @@ def model_cases(rnd, events, errors, n):
       wide = "quantized_bits(16,7,1,alpha=1.0)"            # exact on the dyadic folded weights
       qcfg = {"QConv2DBatchnorm": {"kernel_quantizer": wide, "bias_quantizer": wide},
               "QDepthwiseConv2DBatchnorm": {"depthwise_quantizer": wide, "bias_quantizer": wide}}
+      unfolded_names = rnd.random() < 0.5
+      if unfolded_names:          # the documented fallback: entries under the names of the un-folded classes
+        qcfg = {"QConv2D": qcfg["QConv2DBatchnorm"], "QDepthwiseConv2D": qcfg["QDepthwiseConv2DBatchnorm"]}
       qm = qutils.model_quantize(m, qcfg, 4, transfer_weights=False, enable_bn_folding=True)
       # the conversion does not carry weights over: load the source parameters into the converted model by name
       bn_of = {"c": "bn", "d": "bn2"}
